@@ -128,6 +128,8 @@ class Build:
             print("[build]", *a, file=sys.stderr, flush=True)
 
     def _prune(self):
+        if os.environ.get("XRL_NOPRUNE"):          # several trees are being checked in parallel (tools/seedregress.py): each run removes its own directory
+            return
         with self._lock():
             ds = [d for d in glob.glob(os.path.join(BUILDROOT, "*")) if os.path.isdir(d)]
             ds.sort(key=os.path.getmtime, reverse=True)
